@@ -526,7 +526,16 @@ func isConstantExpression(exp ast.Expression) bool {
 }
 
 func isLiteralExpression(exp ast.Expression) bool {
-	switch exp.(type) {
+	switch t := exp.(type) {
+	// a signed number (-5, -1.5, -10s) is still a literal
+	case *ast.PrefixExpression:
+		if t.Operator == "-" || t.Operator == "+" {
+			switch t.Right.(type) {
+			case *ast.Integer, *ast.Float, *ast.RTime:
+				return true
+			}
+		}
+		return false
 	case *ast.Float:
 		return true
 	case *ast.Integer:
